@@ -176,6 +176,12 @@ def build_kwargs(problem, cfg, trace, hooks=None, checkpoint=None, x0=None):
         if sc != 1.0:
             v = v * sc
         trace.evals.append(("g", xr, v.copy()))
+        if cfg.get("reuse_grad_buffer") and not hostile:
+            # a user who writes every gradient into one preallocated work array and returns that array each time
+            if "buf" not in gbuf:
+                gbuf["buf"] = np.empty_like(v)
+            gbuf["buf"][:] = v
+            return gbuf["buf"]
         if hostile:
             # a user who writes every gradient into one preallocated work array, and scribbles on the argument it was given
             if "buf" not in gbuf:
